@@ -502,6 +502,11 @@ func (_this *Writer) WriteBigDecimalFloat(value *apd.Decimal) {
 		}
 		var reduced apd.Decimal
 		reduced.Reduce(value)
+		if reduced.Exponent < value.Exponent {
+			// Dropping the trailing zeros pushed the exponent past 32 bits
+			// (it wrapped): print the value as it is.
+			reduced.Set(value)
+		}
 		var buff [64]byte
 		used := reduced.Append(buff[:0], 'g')
 		_this.WriteBytesNotLF(used)
